@@ -354,9 +354,9 @@ func (e *Enc) havocTarget(st *State, t modTarget) {
 		e.set(st, t.Comp, t.Sort, sStore(e.get(st, t.Comp, t.Sort), t.Base, f))
 	case "loc":
 		l := t.Loc
-		s := e.sortOf(l.GoT)
-		if l.GoT == nil {
-			s = l.CS
+		s := l.CS
+		if l.GoT != nil {
+			s = e.sortOf(l.GoT)
 		}
 		f := e.fresh("hv", s)
 		if l.GoT != nil {
